@@ -151,7 +151,9 @@ func (cs *clientState) capture() chan unblockReason {
 // Releases the client state capture after successful receipt of the unblock
 // signal. After releasing the capture, the non-blocking command processing
 // continues until the command completes.
-func (cs *clientState) releaseCapture() {
+// Returns an unblock request that was posted during the capture but not consumed by the
+// waiting command (nil if there was none): the caller must honour it.
+func (cs *clientState) releaseCapture() (unconsumed *unblockReason) {
 
 	// A blocked command can become unblocked in these ways:
 	//
@@ -175,8 +177,11 @@ func (cs *clientState) releaseCapture() {
 	func() {
 		for {
 			select {
-			case <-cs.unblockCh:
-				// ignore and discard
+			case reason := <-cs.unblockCh:
+				// not seen by the command's select: hand it to the caller
+				if unconsumed == nil {
+					unconsumed = &reason
+				}
 			default:
 				// empty - done
 				return
@@ -187,6 +192,7 @@ func (cs *clientState) releaseCapture() {
 	// drained - clear unblock state and release the capture
 	atomic.StoreInt32(&cs.unblockPending, 0)
 	cs.setLock(CS_DRAINING, CS_UNCAPTURED)
+	return
 }
 
 // Tells a blocking command (if any) to end with a timeout or error.
